@@ -93,7 +93,7 @@ def first(n, tag):
     return None
 
 
-def build_survey(workbook: dict, form_name: str = "data", prefill: bool = True, **kw):
+def build_survey(workbook: dict, form_name: str = "data", prefill: bool = False, **kw):
     """dict workbook -> real workbook_to_json -> real builder.  Returns (survey, warnings)."""
     from pyxform.builder import create_survey_element_from_dict
     from pyxform.xls2json import workbook_to_json
@@ -106,7 +106,10 @@ def build_survey(workbook: dict, form_name: str = "data", prefill: bool = True, 
     from harness import shims
 
     if prefill:
-        shims.s3_prefill_xpath(survey)  # symbolic mode only; no-op in concrete replay
+        # only for forms whose element/form *names* are symbolic (dict store with a symbolic key);
+        # symbolic mode only, no-op in concrete replay.  Everywhere else the real
+        # Survey._setup_xpath_dictionary runs.
+        shims.s3_prefill_xpath(survey)
     return survey, warnings, js
 
 
